@@ -1,6 +1,20 @@
 """C05 termination once, right reason, final (processes and meta-processes)."""
 from checks import _sched
+from checks import supmachine as sm
+
+
+def _sup(c):
+    """the reason a supervisor terminates with: on the real supOFO / supARFO / supSOFO machines, a supervisor that is
+    shutting down terminates with the recorded cause of the shutdown, whatever the last awaited child died with"""
+    sm.machine(c, "machine", spec=["spec_reason_is_cause"], premise=["premise_ended_shutdown"], n_quick=700, n_thorough=8000)
 
 
 def run(c):
+    if c.replay and sm.replay_kind(c).startswith("machine"):
+        c.proofs("theories/Properties/C05.v", clean=False)
+        _sup(c)
+        return
     _sched.run(c, "theories/Properties/C05.v", ["spec_c05", "spec_c01"], meta_spec=["spec_meta_c05", "spec_meta_c01"])
+    if not c.replay:
+        _sup(c)
+        c.assumptions += sm.ASSUMPTIONS[:1]
